@@ -182,7 +182,12 @@ def gen_derived_curve(rng, depth=1):
         return ("c_exs", rng.randint(0, 14), ("cur", gen_dmin(rng)))
     if k == "c_exb":
         d = gen_dmin(rng)
-        return ("c_exb", rng.randint(1, 80), len(d) + 2 if rng.random() < 0.7 else rng.randint(0, 8), ("cur", d))
+        delta = rng.randint(1, 80)
+        if len(d) < 2:
+            # a curve that cannot extrapolate takes the given bound as it is: a bound below the
+            # known distances is a caller error (yields a non-monotone vector), not generated
+            delta = max(delta, d[-1] + 1)
+        return ("c_exb", delta, len(d) + 2 if rng.random() < 0.7 else rng.randint(0, 8), ("cur", d))
     return ("c_it", [rng.randint(0, 30) for _ in range(rng.randint(1, 6))])
 
 
@@ -360,3 +365,42 @@ def gen_rb_maybe_agg(rng, scalar=True, allow_prefix=True):
         return gen_task_rb(rng, scalar, allow_prefix)
     k = wchoice(rng, [(3, "ragg"), (1, "rsli")])
     return (k, [gen_task_rb(rng, scalar, allow_prefix) for _ in range(rng.randint(0, 3))])
+
+
+# ---------------------------------------------------------------------------
+# keeping the list-based model tractable
+
+ANALYSIS_OPS = ("fifo", "fp_p", "fp_np", "fp_lp", "fp_fl", "edf_p", "edf_np", "edf_lp", "edf_fl",
+                "ros_es", "ros_tm", "ros_pp", "ros_ch", "rr", "bw")
+
+
+def xcur_density(op):
+    """largest (entries per time unit) of an extrapolating delta-min vector in an op line"""
+    t = op.split()
+    best = 0.0
+    for i, tok in enumerate(t):
+        if tok == "xcur" and i + 1 < len(t) and t[i + 1].isdigit():
+            n = int(t[i + 1])
+            v = t[i + 2:i + 2 + n]
+            if n and len(v) == n and all(x.isdigit() for x in v):
+                best = max(best, n / max(int(v[-1]), 1))
+    return best
+
+
+def cap_dense(op):
+    """the divergence limit (last token) of an analysis op is capped when the workload contains
+    a dense auto-extrapolating curve: the analysis queries the curve at interval lengths up to
+    the limit, every query of the (cache-free, list-based) model re-extrapolates the vector to
+    about limit * density entries at cubic cost.  The real code is unaffected; this bounds what
+    the correspondence explores, not what is claimed."""
+    t = op.split()
+    if not t or t[0] not in ANALYSIS_OPS or not t[-1].isdigit():
+        return op
+    dens = xcur_density(op)
+    if dens <= 0:
+        return op
+    cap = max(int(300 / dens), 20)
+    if int(t[-1]) > cap:
+        t[-1] = str(cap)
+        return " ".join(t)
+    return op
